@@ -1,6 +1,6 @@
 #!/usr/bin/env python3
 """translate_imp.py - fail-closed translator for the small IMPERATIVE methods that mutate the dictionaries of CFDivisor / CFGraph
-(lending_move, borrowing_move, chip_transfer, set_fire, is_effective, get_degree; add_edge, get_valence, is_loopless;
+(lending_move, borrowing_move, chip_transfer, set_fire, is_effective, get_degree, the constructor __init__ and __neg__ / __rmul__ / __add__ / __sub__; add_edge, get_valence, is_loopless;
 CFiringScript.get_firings / set_firings / update_firings; CFConfig.get_out_degree_S, the wrappers set_fire / lending_move / borrowing_move and the readers
 get_degree_at / get_q_underlying_degree / get_degree_sum / is_non_negative;
 CFOrientation.set_orientation / check_fullness / get_in_degree / get_out_degree / get_orientation / is_source / is_sink) to Gallina.
@@ -25,13 +25,16 @@ expression and is hoisted like a dictionary read), validation-only loops, the ea
 that `return` from anywhere inside (the accumulator then carries `(option result, state)` and later iterations are skipped); `<` on vertices is the
 order of their names = of their numbers; a method with a result that also writes fields returns `(result, fields)`; a method annotated
 Optional[bool] / Optional[Tuple[str, str]] returns an option (`return None` = None, any other return = Some). An `if` whose branches only update state and which
-is followed by more statements is translated as `match (if c then A else B) with ...` so that the continuation appears once."""
+is followed by more statements is translated as `match (if c then A else B) with ...` so that the continuation appears once.
+For the constructor and the operators: `{v: e for v in <set>}`, `[... for a, b in <pairs or d.items()>]`, `len(xs) != len(set(xs))` (= a name occurs twice), `xs = []` / `xs.append((name, int))`,
+`==` / `!=` on sets, `for a, b in <pairs>`, `return CFDivisor(self.graph, pairs)` (the translated constructor on this object's own graph); a CFGraph parameter is seen through
+its vertex set and adjacency dictionary, a CFDivisor parameter through its graph's vertex set and its chips; `isinstance(n, int)` on a parameter annotated int is true."""
 import ast, sys, os
 REPO = os.environ.get("CF_REPO", "/repo")
 OUT = os.path.join(os.path.dirname(os.path.abspath(__file__)), "..", "coq", "theories", "TranslatedImp.v")     # directory of the generated files TranslatedImp<Class>.v
 # class -> { attribute text : (gallina name, type) }
 FIELDS = {
-    "CFDivisor": {"self.degrees": ("self_degrees", "dictZ"), "self.graph.graph": ("self_graph_graph", "dictD"), "self.total_degree": ("self_total_degree", "Z")},
+    "CFDivisor": {"self.degrees": ("self_degrees", "dictZ"), "self.graph.graph": ("self_graph_graph", "dictD"), "self.total_degree": ("self_total_degree", "Z"), "self.graph.vertices": ("self_graph_vertices", "set")},
     "CFGraph": {"self.graph": ("self_graph", "dictD"), "self.vertex_total_valence": ("self_vertex_total_valence", "dictZ"), "self.total_valence": ("self_total_valence", "Z")},
     "CFiringScript": {"self._script": ("self_script", "dictZ"), "self.graph.vertices": ("self_graph_vertices", "set")},
     "CFConfig": {"self.graph.graph": ("self_graph_graph", "dictD"), "self.graph.vertices": ("self_graph_vertices", "set"), "self.q_vertex": ("self_q_vertex", "key")},
@@ -48,6 +51,8 @@ TARGETS = [
     ("chipfiring/CFDivisor.py", "CFDivisor", "is_effective"), ("chipfiring/CFDivisor.py", "CFDivisor", "get_degree"),
     ("chipfiring/CFDivisor.py", "CFDivisor", "lending_move"), ("chipfiring/CFDivisor.py", "CFDivisor", "borrowing_move"),
     ("chipfiring/CFDivisor.py", "CFDivisor", "chip_transfer"), ("chipfiring/CFDivisor.py", "CFDivisor", "set_fire"),
+    ("chipfiring/CFDivisor.py", "CFDivisor", "__init__"), ("chipfiring/CFDivisor.py", "CFDivisor", "__neg__"), ("chipfiring/CFDivisor.py", "CFDivisor", "__rmul__"),
+    ("chipfiring/CFDivisor.py", "CFDivisor", "__add__"), ("chipfiring/CFDivisor.py", "CFDivisor", "__sub__"),
     ("chipfiring/CFGraph.py", "CFGraph", "is_loopless"), ("chipfiring/CFGraph.py", "CFGraph", "get_valence"), ("chipfiring/CFGraph.py", "CFGraph", "add_edge"),
     ("chipfiring/CFGraph.py", "CFGraph", "add_edges"),
     ("chipfiring/CFiringScript.py", "CFiringScript", "get_firings"), ("chipfiring/CFiringScript.py", "CFiringScript", "set_firings"),
@@ -61,7 +66,7 @@ TARGETS = [
 ]
 class Unsupported(Exception): pass
 def bad(node, why=""): raise Unsupported("%s at line %s: %s" % (type(node).__name__, getattr(node, "lineno", "?"), why))
-COQTY = {"optbool": "(option bool)", "optpair": "(option (nat * nat))", "key": "nat", "Z": "Z", "bool": "bool", "dictZ": "dictZ", "dictD": "dictD", "set": "list nat", "edges": "list (nat * nat * Z)"}
+COQTY = {"pairs": "(list (nat * Z))", "keys": "(list nat)", "divobj": "(dictZ * Z)", "optbool": "(option bool)", "optpair": "(option (nat * nat))", "key": "nat", "Z": "Z", "bool": "bool", "dictZ": "dictZ", "dictD": "dictD", "set": "list nat", "edges": "list (nat * nat * Z)"}
 def ann_type(a):
     s = ast.unparse(a)
     if s == "int": return "Z"
@@ -70,6 +75,9 @@ def ann_type(a):
     if s == "Vertex": return "key"
     if s in ("typing.List[typing.Tuple[str, str, int]]", "List[Tuple[str, str, int]]"): return "edges"
     if s == "OrientationState": return "Z"
+    if s in ("List[Tuple[str, int]]", "typing.List[typing.Tuple[str, int]]"): return "pairs"
+    if s == "CFGraph": return "graphobj"
+    if s in ("'CFDivisor'", '"CFDivisor"', "CFDivisor"): return "divparam"
     if s in ("Set[str]", "typing.Set[str]", "typing.Set[typing.str]"): return "set"
     raise Unsupported("annotation " + s)
 DONE = {}      # (cls, name) -> Fn, in translation order
@@ -103,6 +111,51 @@ class Fn:
             n0 = len(self.pending); c, tc = self.expr(e.test); a, ta = self.expr(e.body); b, tb = self.expr(e.orelse)
             if tc != "bool" or ta != tb or len(self.pending) != n0: bad(e, "conditional expression")
             return "(if %s then %s else %s)" % (c, a, b), ta
+        if isinstance(e, ast.Attribute) and isinstance(e.value, ast.Name) and self.env.get(e.value.id) == "graphobj" and e.attr in ("vertices", "graph"):
+            return e.value.id + "_" + e.attr, ("set" if e.attr == "vertices" else "dictD")
+        if isinstance(e, ast.Attribute) and ast.unparse(e).count(".") in (1, 2) and isinstance(ast.parse(ast.unparse(e).split(".")[0], mode="eval").body, ast.Name) \
+                and self.env.get(ast.unparse(e).split(".")[0]) == "divparam" and ast.unparse(e).split(".", 1)[1] in ("graph.vertices", "degrees"):
+            o_, r_ = ast.unparse(e).split(".", 1); return o_ + "_" + r_.replace(".", "_"), ("set" if r_ == "graph.vertices" else "dictZ")
+        if isinstance(e, ast.List) and not e.elts: return "(@nil (nat * Z))", "pairs"        # (only ever appended to with (name, int) pairs: checked at the append)
+        if isinstance(e, ast.Call) and isinstance(e.func, ast.Name) and e.func.id == "isinstance" and len(e.args) == 2 and isinstance(e.args[0], ast.Name) \
+                and self.env.get(e.args[0].id) == "Z" and ast.unparse(e.args[1]) == "int": return "true", "bool"      # a parameter annotated int (assumption of the tie: callers respect the annotation)
+        if isinstance(e, ast.DictComp) and len(e.generators) == 1 and not e.generators[0].ifs and isinstance(e.generators[0].target, ast.Name) and isinstance(e.key, ast.Name) \
+                and e.key.id == e.generators[0].target.id and e.key.id not in self.env:
+            # {v: e for v in <set>}: the keys are inserted in the order the set is iterated in
+            src, ts = self.expr(e.generators[0].iter); v = e.key.id
+            if ts != "set": bad(e, "dict comprehension over " + ts)
+            self.env[v] = "key"; n0 = len(self.pending); val, tv = self.expr(e.value); del self.env[v]
+            if tv != "Z" or len(self.pending) != n0: bad(e, "dict comprehension value")
+            self.uses_order = True; return "(fold_left (fun d_ %s => d_set %s %s d_) (set_order %s) [])" % (v, v, val, src), "dictZ"
+        if isinstance(e, ast.ListComp) and len(e.generators) == 1 and not e.generators[0].ifs and isinstance(e.generators[0].target, ast.Tuple) and len(e.generators[0].target.elts) == 2 \
+                and all(isinstance(x, ast.Name) for x in e.generators[0].target.elts):
+            # [name for name, _ in pairs]   /   [(v.name, f(deg)) for v, deg in d.items()]
+            g_ = e.generators[0]; a_, b_ = [x.id for x in g_.target.elts]
+            if isinstance(g_.iter, ast.Call) and isinstance(g_.iter.func, ast.Attribute) and g_.iter.func.attr == "items" and not g_.iter.args:
+                src, ts = self.expr(g_.iter.func.value)
+                if ts != "dictZ": bad(e, "items() of " + ts)
+            else:
+                src, ts = self.expr(g_.iter)
+                if ts != "pairs": bad(e, "list comprehension over " + ts)
+            if a_ in self.env or b_ in self.env or a_ == "_": bad(e, "comprehension variable shadows a name")
+            self.env[a_] = "key"
+            if b_ != "_": self.env[b_] = "Z"
+            n0 = len(self.pending)
+            if isinstance(e.elt, ast.Tuple) and len(e.elt.elts) == 2:
+                (x_, tx_), (y_, ty_) = self.expr(e.elt.elts[0]), self.expr(e.elt.elts[1]); out_ = "(%s, %s)" % (x_, y_); to_ = "pairs"
+                if tx_ != "key" or ty_ != "Z": bad(e, "element of the comprehension")
+            else:
+                out_, tx_ = self.expr(e.elt); to_ = "keys"
+                if tx_ != "key": bad(e, "element of the comprehension")
+            del self.env[a_]
+            if b_ != "_": del self.env[b_]
+            if len(self.pending) != n0: bad(e, "a dictionary read inside a comprehension")
+            return "(map (fun '(%s, %s) => %s) %s)" % (a_, b_, out_, src), to_
+        if isinstance(e, ast.Compare) and len(e.ops) == 1 and isinstance(e.ops[0], (ast.Eq, ast.NotEq)) and isinstance(e.left, ast.Call) and isinstance(e.comparators[0], ast.Call) \
+                and ast.unparse(e.left.func) == "len" and ast.unparse(e.comparators[0].func) == "len" and len(e.left.args) == 1 and isinstance(e.left.args[0], ast.Name) \
+                and ast.unparse(e.comparators[0].args[0]) == "set(%s)" % e.left.args[0].id and self.env.get(e.left.args[0].id) == "keys":
+            # len(xs) == len(set(xs)): no name occurs twice
+            t = "(nodupb %s)" % e.left.args[0].id; return (t if isinstance(e.ops[0], ast.Eq) else "(negb %s)" % t), "bool"
         f = self.field(e) if isinstance(e, ast.Attribute) else None
         if f: return f
         if isinstance(e, ast.Attribute) and e.attr == "name":
@@ -182,6 +235,8 @@ class Fn:
                 return {ast.Lt: "(Nat.ltb %s %s)", ast.LtE: "(Nat.leb %s %s)", ast.Gt: "(Nat.ltb %s %s)", ast.GtE: "(Nat.leb %s %s)"}[type(op)] % ((a, b) if isinstance(op, (ast.Lt, ast.LtE)) else (b, a)), "bool"
             if ta == "key" and tb == "key" and isinstance(op, (ast.Eq, ast.NotEq)):
                 t = "(Nat.eqb %s %s)" % (a, b); return (t if isinstance(op, ast.Eq) else "(negb %s)" % t), "bool"
+            if ta == "set" and tb == "set" and isinstance(op, (ast.Eq, ast.NotEq)):
+                t = "(set_eqb %s %s)" % (a, b); return (t if isinstance(op, ast.Eq) else "(negb %s)" % t), "bool"
             if ta != "Z" or tb != "Z": bad(e, "comparison of %s and %s" % (ta, tb))
             o = {ast.Lt: "(%s <? %s)", ast.LtE: "(%s <=? %s)", ast.Gt: "(%s >? %s)", ast.GtE: "(%s >=? %s)", ast.Eq: "(%s =? %s)", ast.NotEq: "(negb (%s =? %s))"}.get(type(op))
             if not o: bad(e, "comparison operator")
@@ -226,7 +281,7 @@ class Fn:
                 while isinstance(t, ast.Subscript): t = t.value
                 if isinstance(t, ast.Attribute): tgt = FIELDS[self.cls].get(ast.unparse(t), (None,))[0]
             if isinstance(n, ast.AugAssign) and isinstance(n.target, ast.Name): tgt = n.target.id
-            if isinstance(n, ast.Call) and isinstance(n.func, ast.Attribute) and n.func.attr == "add" and isinstance(n.func.value, ast.Name) and n.func.value.id not in self.bookkeeping: tgt = n.func.value.id
+            if isinstance(n, ast.Call) and isinstance(n.func, ast.Attribute) and n.func.attr in ("add", "append") and isinstance(n.func.value, ast.Name) and n.func.value.id not in self.bookkeeping: tgt = n.func.value.id
             if isinstance(n, ast.Call) and isinstance(n.func, ast.Attribute) and ast.unparse(n.func.value) == "self":
                 c = DONE.get((self.cls, n.func.attr))
                 for w in (c.writes if c else []):
@@ -243,6 +298,9 @@ class Fn:
         if isinstance(it, ast.Name) and self.env.get(it.id) == "edges" and isinstance(target, ast.Tuple) and len(target.elts) == 3 and all(isinstance(x, ast.Name) for x in target.elts):
             ns = [x.id for x in target.elts]
             return it.id, "let '(%s, %s, %s) := kv_ in" % tuple(ns), {ns[0]: "key", ns[1]: "key", ns[2]: "Z"}, "kv_"
+        if isinstance(it, ast.Name) and self.env.get(it.id) == "pairs" and isinstance(target, ast.Tuple) and len(target.elts) == 2 and all(isinstance(x, ast.Name) for x in target.elts):
+            ns = [x.id for x in target.elts]
+            return it.id, "let '(%s, %s) := kv_ in" % tuple(ns), {ns[0]: "key", ns[1]: "Z"}, "kv_"
         d, td = self.expr(it)
         if not isinstance(target, ast.Name): bad(it, "loop target")
         if td in ("dictZ", "dictD"): return "(d_keys %s)" % d, "", {target.id: "key"}, target.id
@@ -264,9 +322,23 @@ class Fn:
                 and isinstance(s.body[0].value, ast.Call) and ast.unparse(s.body[0].value.func) == "warnings.warn": return K()
         if isinstance(s, ast.Expr) and isinstance(s.value, ast.Call) and isinstance(s.value.func, ast.Attribute) and s.value.func.attr == "add" and isinstance(s.value.func.value, ast.Name) \
                 and s.value.func.value.id in self.bookkeeping and len(s.value.args) == 1 and isinstance(s.value.args[0], ast.Name) and s.value.args[0].id in self.bookkeeping: return K()
+        if isinstance(s, ast.AnnAssign) and s.value is not None and s.simple == 0:
+            s = ast.copy_location(ast.Assign(targets=[s.target], value=s.value), s); u = ast.unparse(s)
+        if isinstance(s, ast.Assign) and u == "self.graph = graph" and self.node.name == "__init__" and self.env.get("graph") == "graphobj": return K()      # the new object's graph IS the argument
         if isinstance(s, ast.Raise): self.can_raise = True; return "EXN_"
         if isinstance(s, ast.Return):
             if s.value is None: bad(s, "bare return")
+            if isinstance(s.value, ast.Call) and isinstance(s.value.func, ast.Name) and s.value.func.id == "CFDivisor" and self.cls == "CFDivisor" and len(s.value.args) == 2 and not s.value.keywords \
+                    and ast.unparse(s.value.args[0]) == "self.graph" and DONE.get(("CFDivisor", "__init__")) is not None:
+                # return CFDivisor(self.graph, pairs): the constructor translated above, on this object's own graph; the result is the new object's (degrees, total_degree)
+                ctor = DONE[("CFDivisor", "__init__")]; lst, tl = self.expr(s.value.args[1])
+                if tl != "pairs" or ctor.reads or ctor.writes != ["self_degrees", "self_total_degree"] or [p_ for p_, _ in ctor.params] != ["graph_vertices", "graph_graph", "degrees"]: bad(s, "constructor call")
+                for f_ in ("self_graph_vertices", "self_graph_graph"):
+                    if f_ not in self.reads: self.reads.append(f_)
+                if ctor.uses_order: self.uses_order = True
+                if self.rty not in (None, "divobj"): bad(s, "returns of different types")
+                self.rty = "divobj"; self.can_raise = True
+                return self.wrap("match CFDivisor___init__ %sself_graph_vertices self_graph_graph %s with PyExn _ => EXN_ | PyOk new_ => RETB_ new_ RETE_ end" % ("set_order " if ctor.uses_order else "", lst))
             if self.opt_ret:
                 # a method annotated Optional[bool] / Optional[Tuple[str, str]]: `return None` is None, any other return is Some of a bool / of a pair of names
                 if isinstance(s.value, ast.Constant) and s.value.value is None: t, ty = "None", self.opt_ret
@@ -307,7 +379,7 @@ class Fn:
                 self.env[tg.id] = ty; body = K(); self.pending = pre
                 return self.wrap("let %s := %s in\n  %s" % (tg.id, t, body))
             if isinstance(tg, ast.Subscript): return self.store(s, tg, None, s.value, K)
-            if isinstance(tg, ast.Attribute) and self.field(tg) and self.field(tg)[1] in ("Z", "bool"):
+            if isinstance(tg, ast.Attribute) and self.field(tg) and self.field(tg)[1] in ("Z", "bool", "dictZ"):
                 f = self.field(tg, write=True); t, ty = self.expr(s.value)
                 if ty != f[1]: bad(s, "field %s assigned a value of type %s" % (f[0], ty))
                 pre = self.pending; self.pending = []; body = K(); self.pending = pre
@@ -328,6 +400,11 @@ class Fn:
                 return self.wrap("let %s := (%s %s %s) in\n  %s" % (f[0], f[0], op, t, body))
         if isinstance(s, ast.Expr) and isinstance(s.value, ast.Call) and isinstance(s.value.func, ast.Attribute):
             c = s.value
+            if c.func.attr == "append" and isinstance(c.func.value, ast.Name) and self.env.get(c.func.value.id) == "pairs" and len(c.args) == 1 and isinstance(c.args[0], ast.Tuple) and len(c.args[0].elts) == 2:
+                (a_, ta_), (b_, tb_) = self.expr(c.args[0].elts[0]), self.expr(c.args[0].elts[1])
+                if ta_ != "key" or tb_ != "Z": bad(s, "append of (%s, %s)" % (ta_, tb_))
+                x = c.func.value.id; pre = self.pending; self.pending = []; body = K(); self.pending = pre
+                return self.wrap("let %s := %s ++ [(%s, %s)] in\n  %s" % (x, x, a_, b_, body))
             if c.func.attr == "add" and isinstance(c.func.value, ast.Name) and self.env.get(c.func.value.id) == "set" and len(c.args) == 1:
                 a, ta = self.expr(c.args[0])
                 if ta != "key": bad(s, "add of " + ta)
@@ -408,7 +485,7 @@ class Fn:
                     if v in [f[0] for f in FIELDS[self.cls].values()]:
                         if v not in self.writes: self.writes.append(v)
                         if v not in self.reads: self.reads.append(v)
-                    elif self.env.get(v) not in ("set", "Z"): bad(s, "loop-carried local " + v)
+                    elif self.env.get(v) not in ("set", "Z", "pairs"): bad(s, "loop-carried local " + v)
                 lst, bind, vs, binder = self.iter_of(s.iter, s.target)
                 pre = self.pending; self.pending = []; env0 = dict(self.env)
                 for x in vs:
@@ -426,7 +503,7 @@ class Fn:
                 if v in [f[0] for f in FIELDS[self.cls].values()]:
                     if v not in self.writes: self.writes.append(v)
                     if v not in self.reads: self.reads.append(v)
-                elif self.env.get(v) not in ("set", "Z"): bad(s, "loop-carried local " + v)
+                elif self.env.get(v) not in ("set", "Z", "pairs"): bad(s, "loop-carried local " + v)
             lst, bind, vs, binder = self.iter_of(s.iter, s.target)
             pre = self.pending; self.pending = []
             env0 = dict(self.env)
@@ -468,12 +545,25 @@ class Fn:
         for a in n.args.args:
             if a.arg == "self": continue
             if a.annotation is None: bad(a, "parameter without annotation")
-            self.env[a.arg] = ann_type(a.annotation); self.params.append((a.arg, self.env[a.arg]))
+            self.env[a.arg] = ann_type(a.annotation)
+            if self.env[a.arg] == "graphobj":       # a CFGraph argument is seen through its vertex set and its adjacency dictionary
+                self.params.append((a.arg + "_vertices", "set")); self.params.append((a.arg + "_graph", "dictD")); continue
+            if self.env[a.arg] == "divparam":       # another divisor is seen through the vertex set of its graph and its dictionary of chips
+                self.params.append((a.arg + "_graph_vertices", "set")); self.params.append((a.arg + "_degrees", "dictZ")); continue
+            self.params.append((a.arg, self.env[a.arg]))
         if self.bookkeeping:
             uses = [x for x in ast.walk(n) if isinstance(x, ast.Name) and x.id in self.bookkeeping]
             if len(uses) != 6: bad(n, "the duplicate-edge bookkeeping locals are used in an unexpected way (%d mentions)" % len(uses))
         body = self.stmts(n.body, lambda: "END_")
         if self.rty is not None and "END_" in body: bad(n, "control can reach the end of a method that returns a value")
+        if n.name == "__init__":
+            # a constructor starts from nothing: every field it reads must first be assigned by a plain top-level `self.f = e` (a `let` that shadows the parameter), which is then dropped
+            inv = {v[0]: k for k, v in FIELDS[self.cls].items()}
+            for f_ in list(self.reads):
+                first = next((x for x in n.body if inv[f_] in ast.unparse(x) and not (isinstance(x, ast.Expr) and isinstance(x.value, ast.Constant))), None)
+                tgt_ = first.target if isinstance(first, ast.AnnAssign) else (first.targets[0] if isinstance(first, ast.Assign) and len(first.targets) == 1 else None)
+                if tgt_ is None or ast.unparse(tgt_) != inv[f_] or inv[f_] in ast.unparse(first.value): bad(n, "a constructor reads the field %s before assigning it" % f_)
+                self.reads.remove(f_)
         opt = self.can_raise
         ftypes0 = {v[0]: COQTY[v[1]] for v in FIELDS[self.cls].values()}
         wt = " * ".join(ftypes0[w] for w in self.writes) if self.writes else "unit"          # the state an exception leaves behind: the written fields
